@@ -76,8 +76,12 @@ class S(explore.Spec):
           ops.append(("rename", a, b))
     return ops
 
-  def is_failure_op(self, op, g_before_texts=None):
-    return True
+  def key(self, g, env):
+    # the line queue and the version guess are hidden state with different
+    # futures; they only refine the de-duplication key (never the oracle),
+    # so reading them directly is harmless: an over-fine key only costs time
+    q = [observe.safe_str(x) for x in getattr(g, "_line_queue", [])]
+    return h([observe.obs(g), q, getattr(g, "_version_guess", None)])
 
   def ops(self, g, env, hist):
     return explore.enabled_ops(g, self)
@@ -135,7 +139,9 @@ F1 = [
     # header
     ("add", T(["H", "ab:i:1", "TS:i:2"])), ("add", T(["H", "ab:i:1", "VN:Z:2.0"])),
     ("add", T(["H", "VN:Z:3.0"])), ("add", T(["H", "ab:i:1", "ab:i:2"])),
+    ("add", T(["H", "yy:i:7", "xx:Z:a"])), ("add", T(["H", "yy:i:7", "xx:f:1.5"])),
     ("rm", "nope"), ("rename", "nope", "Z"),
+    ("rename", "A", "a b"), ("rename", "A", ""), ("rename", "p", "x,y"),
 ]
 F2 = [("add", T(["S", i, "4", "*"])) for i in ("a", "e1", "g1", "o1", "u1")] + \
      [("add", T(["E", i, "c+", "b-", "0", "1", "0", "1", "*"])) for i in ("a", "e1", "g1", "o1", "u1")] + \
@@ -152,10 +158,15 @@ F2 = [("add", T(["S", i, "4", "*"])) for i in ("a", "e1", "g1", "o1", "u1")] + \
     ("add", T(["F", "a", "x", "0", "1", "0", "1", "*"])),
     ("add", T(["H", "ab:i:1", "TS:i:2"])), ("add", T(["H", "ab:i:1", "VN:Z:1.0"])),
     ("add", T(["H", "VN:Z:3.0"])),
+    ("add", T(["H", "yy:i:7", "xx:Z:a"])), ("add", T(["H", "yy:i:7", "xx:f:1.5"])),
+    ("add", T(["U", "u3", "b", "xx:i:0"])), ("add", T(["O", "o4", "b+", "xx:i:0"])),
+    ("add", T(["U", "u3", "b", "yy:i:1", "xx:i:2"])),
     ("rm", "nope"), ("rename", "nope", "z"),
+    ("rename", "a", "a b"), ("rename", "a", ""), ("rename", "e1", "*x y"),
 ]
-U1 = universe.G1_CORE + [T(["H", "TS:i:1"]), T(["L", "B", "+", "C", "+", "*", "ID:Z:x"])]
-U2 = universe.G2_CORE[:-1] + [T(["H", "TS:i:1"]), T(["U", "u3", "a", "xx:i:1"]),
+U1 = universe.G1_CORE + [T(["H", "TS:i:1"]), T(["H", "xx:i:1"]),
+                         T(["L", "B", "+", "C", "+", "*", "ID:Z:x"])]
+U2 = universe.G2_CORE + [T(["H", "TS:i:1"]), T(["H", "xx:i:1"]), T(["U", "u3", "a", "xx:i:1"]),
                               T(["O", "o4", "a+", "xx:i:1"]), T(["U", "u1", "b"])]
 
 S(name="c08.g1", universe=U1, version="gfa1", failing=F1, rename_targets=())
@@ -163,6 +174,11 @@ S(name="c08.g2", universe=U2, version="gfa2", failing=F2, rename_targets=())
 S(name="c08.g1open", universe=U1, version=None, failing=F1 + F2[:8], rename_targets=())
 S(name="c08.g2open", universe=U2, version=None, failing=F2 + F1[:8], rename_targets=())
 S(name="c08.g1v3", universe=U1, version="gfa1", vlevel=3, failing=F1, rename_targets=())
+S(name="c08.g1v2", universe=U1, version="gfa1", vlevel=2, failing=F1, rename_targets=())
+S(name="c08.g2v2", universe=U2, version="gfa2", vlevel=2, failing=F2, rename_targets=())
+S(name="c08.g2v3", universe=U2, version="gfa2", vlevel=3, failing=F2, rename_targets=())
+S(name="c08.g1v0", universe=U1, version="gfa1", vlevel=0, failing=F1, rename_targets=())
+S(name="c08.g2v0", universe=U2, version="gfa2", vlevel=0, failing=F2, rename_targets=())
 
 
 def run(ctx):
@@ -179,10 +195,13 @@ def run(ctx):
       "hidden state (line queue, version guess) is observed through a "
       "one-step look-ahead: process_line_queue() on a replica"]
   if ctx.quick:
-    plan = [("c08.g1", 3), ("c08.g2", 3), ("c08.g1open", 2), ("c08.g2open", 2)]
+    plan = [("c08.g1", 3), ("c08.g2", 3), ("c08.g1open", 2), ("c08.g2open", 2),
+            ("c08.g1v2", 2), ("c08.g2v2", 2), ("c08.g1v3", 2), ("c08.g2v3", 2),
+            ("c08.g1v0", 2), ("c08.g2v0", 2)]
   else:
     plan = [("c08.g1", 4), ("c08.g2", 4), ("c08.g1open", 4), ("c08.g2open", 4),
-            ("c08.g1v3", 3)]
+            ("c08.g1v2", 3), ("c08.g2v2", 3), ("c08.g1v3", 3), ("c08.g2v3", 3),
+            ("c08.g1v0", 3), ("c08.g2v0", 3)]
   if ctx.slice:
     plan = [(n, max(2, d - 2)) for n, d in plan[:2]]
   done = {}
